@@ -115,6 +115,7 @@ func runCheck(args []string) int {
 	timeout := 10
 	if tier == "thorough" {
 		timeout = 60
+		crossCheck = true
 	}
 	// stale contracts
 	for _, name := range p.cs.Order {
@@ -262,6 +263,10 @@ func runCheck(args []string) int {
 	if toolErr {
 		return 2
 	}
+	if crossStats["contradictions"] > 0 {
+		fmt.Printf("TOOLING-ERROR: %d solver contradictions (one solver says unsat, another sat) in the cross-check\n", crossStats["contradictions"])
+		return 2
+	}
 	if len(order) == 0 {
 		fmt.Printf("TOOLING-ERROR: property %s generated zero obligations\n", id)
 		return 2
@@ -336,6 +341,7 @@ func runCheck(args []string) int {
 			"known_findings_reported":  knownHit,
 			"undecided_parts":          meta.Undecided,
 			"bounded":                  []string{},
+			"cross_check":              crossStats,
 			"explanation":              "every obligation (postcondition, invariant, callee precondition, panic site, frame condition, variant) tagged with this property or supporting it is generated from the current source and must be unsat (negated) on one of the solvers; `obligations` counts distinct obligations, `leaf_queries` the split cases they were decided in",
 		}}
 	os.MkdirAll(filepath.Join(verifDir, "evidence"), 0o755)
